@@ -70,6 +70,11 @@ def _batch_gradients(ctx, cfg):
         calls.append(("pos", samples, bases_batch))
         return [st.SymTensor(p.copy()) for p in P]
 
+    def grad_stub(samples, bases=None):
+        # contract of gradient(): the un-normalised sum, i.e. |batch| times the positive phase
+        calls.append(("pos", samples, bases))
+        return [st.SymTensor(p.copy() * samples.shape[0]) for p in P]
+
     def gibbs_stub(k, v0, overwrite=False):
         calls.append(("gibbs", k, v0, overwrite))
         return VK
@@ -83,7 +88,7 @@ def _batch_gradients(ctx, cfg):
         neg_keep = neg.clone()
         bases = None if kind == "positive" else np.array([list("XZ")] * bp)
         del calls[:]
-        with N.stubbed(state, "positive_phase_gradients", pos_stub), N.stubbed(state.rbm_am, "gibbs_steps", gibbs_stub), \
+        with N.stubbed(state, "positive_phase_gradients", pos_stub), N.stubbed(state, "gradient", grad_stub), N.stubbed(state.rbm_am, "gibbs_steps", gibbs_stub), \
                 N.stubbed(state.rbm_am, "effective_energy_gradient", eeg_stub):
             k = 3
             if kind == "positive":
@@ -95,12 +100,15 @@ def _batch_gradients(ctx, cfg):
         tag = "[pos=%d neg=%d]" % (bp, bn)
         gib = [c for c in calls if c[0] == "gibbs"]
         first = calls[:3]
+        pc = [c for c in first if c[0] == "pos"]
+        gc = [c for c in first if c[0] == "gibbs"]
+        ec = [c for c in first if c[0] == "eeg"]
         ctx.holds("compute_batch_gradients/positive phase of exactly this batch and its bases" + tag,
-                  first[0][0] == "pos" and first[0][1] is samples and (first[0][2] is bases))
+                  len(pc) == 1 and pc[0][1] is samples and (pc[0][2] is bases))
         ctx.holds("compute_batch_gradients/k Gibbs steps from the negative batch, once, on the amplitude network, without overwriting it" + tag,
-                  len([c for c in first if c[0] == "gibbs"]) == 1 and first[1][:3] == ("gibbs", k, neg) and first[1][3] is False and torch.equal(neg, neg_keep))
+                  len(gc) == 1 and gc[0][:3] == ("gibbs", k, neg) and gc[0][3] is False and torch.equal(neg, neg_keep))
         ctx.holds("compute_batch_gradients/energy gradient of the states reached by the chain, summed" + tag,
-                  first[2][0] == "eeg" and first[2][1] is VK and first[2][2] is True)
+                  len(ec) == 1 and ec[0][1] is VK and ec[0][2] is True)
         ctx.holds("compute_batch_gradients/one gradient per network" + tag, isinstance(g, list) and len(g) == len(nets))
         div = bp if canary == "spec-divides-by-positive-batch-size" else bn
         for j in range(npar[0]):
